@@ -1263,7 +1263,9 @@ class disasmEngine(object):
                     cur_block.add_cst(loc_key_cst, AsmConstraint.c_next)
                 break
 
-            if lines_cpt > 0 and offset in self.split_dis:
+            if (lines_cpt > 0 and offset in self.split_dis and
+                not in_delayslot):
+                # (a block is never cut between a branch and its delay slot)
                 loc_key_cst = self.loc_db.get_or_create_offset_location(offset)
                 cur_block.add_cst(loc_key_cst, AsmConstraint.c_next)
                 offsets_to_dis.add(offset)
